@@ -13,16 +13,28 @@
 (*              which the same message succeeds with all controls off).                               *)
 EXTENDS Catalogue
 
+Roles4 == {"in", "out", "t1", "t2"}
 EsmStates == {"off", "fresh", "blocked", "cool", "after"}
 NoSnapshot == {"fresh", "blocked"}
 Ctl(b, e, o) == [breaker |-> b, esm |-> e, off |-> o]
 CtlOff == Ctl(FALSE, "off", {})
-Settings == {Ctl(b, e, o) : b \in BOOLEAN, e \in EsmStates, o \in SUBSET IO}
+Settings == {Ctl(b, e, o) : b \in BOOLEAN, e \in EsmStates, o \in SUBSET Roles4}
 
 (* price roles of a row on a product: a vault product whose debt asset has a fixed price needs no "out" price *)
-Products == {"oracle", "fixed", "na"}
-Px(r, prod) == IF prod = "fixed" THEN r.px \ {"out"} ELSE r.px
-Ip(r, prod) == IF prod = "fixed" THEN r.ip \ {"out"} ELSE r.ip
+(* Position shapes ("products") of a row: vault products with an oracle-priced / a fixed-price debt asset; for the borrow rows a
+   same-pool position ("na") and a CROSS-POOL position ("cross": collateral lent in one pool, debt taken from another pool, the
+   value bridged through the collateral pool's two transit assets; the collateral is not itself a transit asset).
+   Price roles of a cross-pool position: in = collateral, out = debt, t1 / t2 = the two transit assets. *)
+Products == {"oracle", "fixed", "na", "cross"}
+CrossRows == {"lend.DepositBorrow", "lend.Draw", "lend.Repay", "lend.CloseBorrow"}
+(* adding collateral to a cross-pool borrow re-computes the bridged amount from the collateral's value: it needs the collateral price *)
+Px(r, prod) == IF prod = "fixed" THEN r.px \ {"out"}
+               ELSE IF prod = "cross" /\ r.id = "lend.DepositBorrow" THEN {"in"}
+               ELSE r.px
+(* as coded, adding collateral to a cross-pool borrow also reads both transit prices (a further draw does not) *)
+Ip(r, prod) == IF prod = "fixed" THEN r.ip \ {"out"}
+               ELSE IF prod = "cross" /\ r.id = "lend.DepositBorrow" THEN {"in", "t1", "t2"}
+               ELSE r.ip
 
 (* ---------------------------------------------------------------------------------------------- *)
 (* The property (from the statement)                                                               *)
